@@ -234,11 +234,12 @@ impl Check for C01 {
         let nc = CONTEXTS.len();
         let np = PAYLOADS.len();
         ctx.rule = format!(
-            "(1) every chain of depth 0..2{} over {} construct contexts around every one of {} payload fragments, with and without a same-named variable declared before the outermost construct and read after it; every depth-0/1 chain around every ordered pair of payloads (second payload renamed) placed both inside, or one inside and one after{}; (2) breadth-first over all statement sequences of length <= {} from {} statements on a, b, c with dead-state pruning; oracle: reference interpreter (stdout, termination class); non-trivial = all",
+            "(1) every chain of depth 0..2{} over {} construct contexts around every one of {} payload fragments, with and without a same-named variable declared before the outermost construct and read after it; every depth-0/1 chain around every ordered pair of payloads (second payload renamed) placed both inside, or one inside and one after{}; (3) {} evaluation-order programs: every construct with several operand positions (operators, literals, spreads, calls with the callee as a position, indexing, every assignment form, slots, patterns, conditions of if / else-if / while), each position printing its number and then succeeding or failing, all 2^k assignments; (2) breadth-first over all statement sequences of length <= {} from {} statements on a, b, c with dead-state pruning; oracle: reference interpreter (stdout, termination class); non-trivial = all",
             if thorough { " (depth 3 over a core subset)" } else { "" },
             nc,
             np,
             if thorough { ", every depth-2 chain around every pair on a payload subset" } else { "" },
+            super::evalorder::cases(4).len(),
             seq_len,
             STMTS.len()
         );
@@ -324,6 +325,9 @@ impl Check for C01 {
             }
         }
         flush(ctx, &mut cases, self)?;
+        // (3) evaluation order of the operand positions of every construct
+        let eo = super::evalorder::cases(4);
+        ctx.judge(eo, |c, r, o| self.oracle(c, r, o))?;
         // (2) statement sequences
         let stats = bfs(ctx, &Seq, seq_len, |c, r, o| self.oracle(c, r, o), |_c, _p| {})?;
         ctx.extra.insert(
